@@ -119,7 +119,7 @@ Proof. intros E H t. rewrite E. apply H. Qed.
 
 Lemma I1_step w mv : I1 w -> I1 (step w mv).
 Proof.
-  intros H. destruct mv as [t|t|t|n|c]; cbn [step].
+  intros H. destruct mv as [t|t|t|t|n|c]; cbn [step].
   - apply (I1_tc (step_run w t)); [apply tc_clear_mark|].
     destruct (step_run_case w t).
     + auto.
@@ -134,6 +134,7 @@ Proof.
     rewrite <- Hpc. now apply I1_after.
   - apply (I1_tc w); [reflexivity|auto].
   - apply (I1_tc w); [reflexivity|auto].
+  - apply (I1_tc w); [reflexivity|auto].
 Qed.
 
 
@@ -145,6 +146,15 @@ Proof.
 Qed.
 Lemma ps_begin_op w t op rest : ps (begin_op w t op rest) = ps w.
 Proof. destruct op; cbn [begin_op]; wsimpl; try destruct (handle w c); reflexivity. Qed.
+
+(* the TimeoutSteal move either does nothing or turns the return code of a woken timed waiter into ETIMEDOUT *)
+Lemma steal_shape p t : prim_timeout_steal p t = p \/
+  exists m rc d, st p t = TWoken m rc (Some d) /\ dl_expired d (now p) = true /\
+                 prim_timeout_steal p t = set_st p t (TWoken m ETIMEDOUT (Some d)).
+Proof.
+  unfold prim_timeout_steal. destruct (st p t) eqn:Hst; auto. destruct dl as [d|]; auto.
+  destruct (dl_expired d (now p)) eqn:He; auto. right. eauto 10.
+Qed.
 
 (* ---- how one primitive step changes the primitive state ---- *)
 Definition st_evolves (a b : tstat) : Prop :=
@@ -176,7 +186,8 @@ Proof.
   - inv_outcome H. left; auto.
   - destruct (acquire p m t) eqn:Ha; inv_outcome H. apply acquire_some in Ha as (k & -> & _). left; reflexivity.
   - destruct (acquire p m t) eqn:Ha; inv_outcome H; [|left; auto]. apply acquire_some in Ha as (k & -> & _). left; reflexivity.
-  - destruct (owned_by (mtx p m) t); inv_outcome H; [|left; auto]. unfold release. destruct (m_cnt (mtx p m)) as [|[|k]]; left; reflexivity.
+  - destruct (owned_by (mtx p m) t); [|destruct (m_rec (mtx p m))]; inv_outcome H; [|left; auto|left; reflexivity].
+    unfold release. destruct (m_cnt (mtx p m)) as [|[|k]]; left; reflexivity.
   - destruct (st p t) eqn:Hst; try discriminate.
     + destruct (negb _); [inv_outcome H; wsimpl; rewrite upd_other by auto; left; auto|].
       destruct (dl_bad dl); inv_outcome H; wsimpl; [left; auto|]. rewrite upd_other by auto. left; reflexivity.
@@ -206,7 +217,8 @@ Proof.
   - inversion H; subst; auto.
   - destruct (acquire p m t) eqn:Ha; inversion H; subst. apply acquire_some in Ha as (k & -> & _). exact Hs.
   - destruct (acquire p m t) eqn:Ha; inversion H; subst; auto. apply acquire_some in Ha as (k & -> & _). exact Hs.
-  - destruct (owned_by (mtx p m) t); inversion H; subst; auto. unfold release. destruct (m_cnt (mtx p m)) as [|[|k]]; exact Hs.
+  - destruct (owned_by (mtx p m) t); [|destruct (m_rec (mtx p m))]; inversion H; subst; auto.
+    unfold release. destruct (m_cnt (mtx p m)) as [|[|k]]; exact Hs.
   - destruct Hs as [Hs|(c' & m' & rc & dl' & Hs & Hc)]; rewrite Hs in H.
     + destruct (negb _); [discriminate|]. destruct (dl_bad dl); inversion H; subst; auto.
     + destruct (is_free _); inversion H; subst. wsimpl. apply upd_same.
@@ -273,7 +285,7 @@ Proof. destruct s; cbn; congruence. Qed.
 
 Lemma I2_step w mv : I2 w -> I2 (step w mv).
 Proof.
-  intros H. destruct mv as [t|t|t|n|c]; cbn [step].
+  intros H. destruct mv as [t|t|t|t|n|c]; cbn [step].
   - intros u. rewrite tc_clear_mark, ps_clear_mark.
     destruct (step_run_case w t) as [|Hr Hpc Hs|op rest Hr Hpc Hs|p' Hr Hpc Hp|p' r Hr Hpc Hp].
     + apply H.
@@ -297,6 +309,9 @@ Proof.
       destruct (Nat.eq_dec u t) as [->|Hu]; [rewrite Hst; exact I|rewrite tc_after_return_other by auto; apply H].
     + wsimpl. unfold prim_timeout. rewrite Hst. destruct dl as [d|]; [|apply H]. destruct (dl_expired d _); [|apply H].
       wsimpl. upd_cases u t; [cbn in *; eauto|apply H].
+  - intros u. pose proof (H t) as Ht. wsimpl. unfold prim_timeout_steal.
+    destruct (st (ps w) t) eqn:Hst; try apply H. destruct dl as [d|]; [|apply H]. destruct (dl_expired d _); [|apply H].
+    wsimpl. upd_cases u t; [cbn in *; eauto|apply H].
   - intros u. apply H.
   - intros u. wsimpl. unfold prim_rotate. destruct (cnd (ps w) c); apply H.
 Qed.
@@ -314,8 +329,10 @@ Lemma trylock_ret p t m p' r : prim_step p t (PTryLock m) = Return p' r ->
 Proof. cbn. destruct (acquire p m t) eqn:Ha; intros H; inversion H; subst; [left|right; auto]. split; auto. now apply acquire_some. Qed.
 
 Lemma unlock_ret p t m p' r : prim_step p t (PUnlock m) = Return p' r ->
-  (owned_by (mtx p m) t = true /\ r = 0 /\ p' = release p m) \/ (owned_by (mtx p m) t = false /\ r = EPERM /\ p' = p).
-Proof. cbn. destruct (owned_by (mtx p m) t); intros H; inversion H; subst; auto. Qed.
+  (owned_by (mtx p m) t = true /\ r = 0 /\ p' = release p m) \/
+  (owned_by (mtx p m) t = false /\ m_rec (mtx p m) = true /\ r = EPERM /\ p' = p) \/
+  (owned_by (mtx p m) t = false /\ m_rec (mtx p m) = false /\ r = 0 /\ p' = release_all p m).
+Proof. cbn. destruct (owned_by (mtx p m) t); [|destruct (m_rec (mtx p m))]; intros H; inversion H; subst; auto 10. Qed.
 
 Lemma condwait_ret p t c m dl p' r : prim_step p t (PCondWait c m dl) = Return p' r ->
   (st p t = TRun /\ owned_by (mtx p m) t = true /\ dl_bad dl = true /\ r = EINVAL /\ p' = p) \/
@@ -371,7 +388,7 @@ Ltac prim_inv H :=
   | prim_step _ _ PYield = Return _ _ => apply yield_ret in H as [? ?]
   | prim_step _ _ (PLock _) = Return _ _ => apply lock_ret in H as (? & ? & ? & ?)
   | prim_step _ _ (PTryLock _) = Return _ _ => apply trylock_ret in H as [(? & ? & ? & ?)|(? & ? & ?)]
-  | prim_step _ _ (PUnlock _) = Return _ _ => apply unlock_ret in H as [(? & ? & ?)|(? & ? & ?)]
+  | prim_step _ _ (PUnlock _) = Return _ _ => apply unlock_ret in H as [(? & ? & ?)|[(? & ? & ? & ?)|(? & ? & ? & ?)]]
   | prim_step _ _ (PCondWait _ _ _) = Return _ _ => apply condwait_ret in H as [(? & ? & ? & ? & ?)|(? & ? & ? & ? & ?)]
   | prim_step _ _ (PSignal _) = Return _ _ => apply signal_ret in H as (? & ? & ? & ? & ?)
   | prim_step _ _ (PBroadcast _) = Return _ _ => apply bcast_ret in H as (? & ?)
@@ -398,11 +415,12 @@ Proof. unfold release. destruct (m_cnt (mtx p m)) as [|[|k]]; reflexivity. Qed.
 Lemma mtx_release_other p m m' : m' <> m -> mtx (release p m) m' = mtx p m'.
 Proof. intros H. unfold release. destruct (m_cnt (mtx p m)) as [|[|k]]; wsimpl; now rewrite upd_other. Qed.
 
-(* a primitive step of thread t never touches a mutex that another thread owns *)
+(* a primitive step of thread t never touches a mutex that another thread owns - except the unlock of a
+   default-type mutex, which glibc does not owner-check *)
 Lemma prim_step_foreign_owner p t c p' m u : outcome_state (prim_step p t c) = Some p' ->
-  m_owner (mtx p m) = Some u -> u <> t -> mtx p' m = mtx p m.
+  m_owner (mtx p m) = Some u -> u <> t -> (c <> PUnlock m \/ m_rec (mtx p m) = true) -> mtx p' m = mtx p m.
 Proof.
-  intros H Ho Hu. destruct c; cbn [prim_step] in H.
+  intros H Ho Hu Hnu. destruct c; cbn [prim_step] in H.
   - inv_outcome H; auto.
   - destruct (acquire p m0 t) eqn:Ha; inv_outcome H. apply acquire_some in Ha as (k & -> & Hc). wsimpl.
     destruct (Nat.eq_dec m m0) as [->|]; [|now rewrite upd_other].
@@ -410,9 +428,12 @@ Proof.
   - destruct (acquire p m0 t) eqn:Ha; inv_outcome H; auto. apply acquire_some in Ha as (k & -> & Hc). wsimpl.
     destruct (Nat.eq_dec m m0) as [->|]; [|now rewrite upd_other].
     destruct Hc as [[Hc _]|(Hc & _)]; congruence.
-  - destruct (owned_by (mtx p m0) t) eqn:Hob; inv_outcome H; auto.
-    destruct (Nat.eq_dec m m0) as [->|]; [|now apply mtx_release_other].
-    unfold owned_by in Hob. rewrite Ho in Hob. apply Nat.eqb_eq in Hob. congruence.
+  - destruct (owned_by (mtx p m0) t) eqn:Hob.
+    + inv_outcome H. destruct (Nat.eq_dec m m0) as [->|]; [|now apply mtx_release_other].
+      unfold owned_by in Hob. rewrite Ho in Hob. apply Nat.eqb_eq in Hob. congruence.
+    + destruct (m_rec (mtx p m0)) eqn:Hrec; inv_outcome H; auto. unfold release_all. wsimpl.
+      destruct (Nat.eq_dec m m0) as [->|]; [|now rewrite upd_other].
+      destruct Hnu as [Hnu|Hnu]; congruence.
   - destruct (st p t) eqn:Hst; try discriminate.
     + destruct (owned_by (mtx p m0) t) eqn:Hob; cbn [negb] in H; [|inv_outcome H; reflexivity].
       destruct (dl_bad dl); inv_outcome H; auto. unfold release_all. wsimpl.
